@@ -181,9 +181,8 @@ def c07_4(R):
         elif not (restart.kind == "const" and restart.scalar == 0):
             R.fail([MSA, "ack_delay_timer.arm", "restart=" + repr(restart)], "the delayed-ACK timer is armed with restart=true: every new packet postpones the ACK, the 40 ms bound is lost", where=t.where(), instance="delayed-ack-arm")
         else:
-            conds = {d for c, truth, d, *_ in controlling(b, t.bb)}
-            g = [d for d in conds if CBU in d]
-            if any(d.startswith("bin:Gt(") and d.endswith("=true") for d in g) or any(d.startswith("bin:Ne(") and d.endswith("=true") for d in g):
+            nz = [nonzero_test(c, truth) for c, truth, d, *_ in controlling(b, t.bb)]
+            if any(x is not None and trace(b, x).last_field == CBU for x in nz):
                 R.ok("delayed-ack-arm", MSA, "arm(ACK_DELAY, restart=false) under consumed_but_unacked_bytes > 0")
             else:
                 R.fail([MSA, "ack_delay_timer.arm", "not-under(consumed_but_unacked_bytes>0)"], "delayed-ACK arm is no longer controlled by 'there are unacknowledged bytes'", where=t.where(), instance="delayed-ack-arm")
